@@ -14,7 +14,7 @@ RULE = ("parser-produced circuits x override dictionaries x pass sequences over 
 ASSUMPTIONS = ["a sequence in which a pass raises JaqalError is 'not applicable' and only counted",
                "reference full meaning from vf/meaning.py"]
 TIERS = {"quick": {"shards": 8, "budget_s": 75}, "thorough": {"shards": 16, "budget_s": 480}}
-REQUIRE = {"macro-named-like-a-bounding-gate": 30, "sequences-judged": 3000, "idempotence-checked": 1000, "parser-flag-combinations": 500, "reparse-checked": 3000,
+REQUIRE = {"parser-flags-with-another-option": 500, "macro-named-like-a-bounding-gate": 30, "sequences-judged": 3000, "idempotence-checked": 1000, "parser-flag-combinations": 500, "reparse-checked": 3000,
            "seq-len-4": 300}
 
 PASSES = "SLMA"
@@ -143,6 +143,23 @@ def judge(case):
     return "ok", fails, counters
 
 
+def parse_as_file(text, kw):
+    import os
+    import tempfile
+
+    d = tempfile.mkdtemp(prefix="vf-c10-")
+    path = os.path.join(d, "prog.jaqal")
+    try:
+        with open(path, "w") as fd:
+            fd.write(text)
+        return lib.parse_file(path, **kw)
+    finally:
+        try:
+            os.remove(path)
+        finally:
+            os.rmdir(d)
+
+
 def judge_flags(case):
     """parse_jaqal_string(expand_*) == passes applied to the plain parse."""
     prog = case_prog(case)
@@ -169,7 +186,13 @@ def judge_flags(case):
         return x
 
     a = lib.outcome(compose)
-    b = lib.outcome(lib.parse, text, override_dict=ov or None, **fl)
+    if case.get("opt") == "return_usepulses":
+        # the parser's other documented options do not change what the expansion flags do
+        b = lib.outcome(lambda: lib.parse(text, override_dict=ov or None, return_usepulses=True, **fl)[0])
+    elif case.get("opt") == "file":
+        b = lib.outcome(parse_as_file, text, dict(fl, override_dict=ov or None))
+    else:
+        b = lib.outcome(lib.parse, text, override_dict=ov or None, **fl)
     fails = []
     if a[0] != b[0]:
         if "exc" in (a[0], b[0]):
@@ -280,7 +303,15 @@ def shard(ctx):
         for fl in ({"expand_macro": True}, {"expand_let": True}, {"expand_let_map": True},
                    {"expand_macro": True, "expand_let": True}, {"expand_macro": True, "expand_let_map": True},
                    {"expand_let": True, "expand_let_map": True}):
-            process(ctx, {"prog": prog, "ov": ov, "flags": fl}, seen)
+            fc = {"prog": prog, "ov": ov, "flags": fl}
+            r = rng.random()
+            if r < 0.3:
+                fc["opt"] = "return_usepulses"
+            elif r < 0.45:
+                fc["opt"] = "file"
+            if "opt" in fc:
+                rec.count("parser-flags-with-another-option")
+            process(ctx, fc, seen)
         if i <= 2:
             rec.sample({"ov": ov, "sequences": seqs[:6], "text": sx.to_text(prog)})
     monitors.report_contracts(rec)
